@@ -242,6 +242,12 @@ typedef struct { bg_size nPQ, nQP, nOther; bg_size bound; /* every index in an `
 typedef struct { bg_size remPQ, remQP, remOther; bg_size bound; bg_edge cur; } bg_edgeseq_it;
 #define BG_ESEQ_WF(s) ((s).nPQ < BG_CAP && (s).nQP < BG_CAP && (s).nOther < BG_CAP && (G_P != G_Q || (s).nQP == 0) && (s).bound <= ((bg_size)1 << 32))
 #define BG_ESEQ_LEFT(it) ((it).remPQ + (it).remQP + (it).remOther)
+/* std::list<LabeledEdge<VLabel>>: as bg_edgeseq plus the label of the FIRST entry (G_P,G_Q), of the first entry
+   (G_Q,G_P), and which of the two orientations comes first in the list (an undirected graph keeps the label of
+   the first entry of the pair in either orientation); the walk is in list order */
+typedef struct { VertexIndex f0, f1; VLabel f2; } bg_ledge_VLabel;
+typedef struct { bg_size nPQ, nQP, nOther; bg_size bound; VLabel firstPQ, firstQP; bg_bool pqBeforeQp; } bg_ledgeseq_VLabel;
+typedef struct { bg_size remPQ, remQP, remOther; bg_size bound; bg_ledge_VLabel cur; bg_size nPQ, nQP; VLabel firstPQ, firstQP; bg_bool pqBeforeQp; } bg_ledgeseq_VLabel_it;
 /* std::unordered_set<VertexIndex>: membership of the observation points, number of other members */
 typedef struct { bg_bool hasP, hasQ; bg_size restCount; bg_size restBound; /* every other member < restBound */ } bg_uset_u;
 /* its iterator: the elements not yet passed (the one under the cursor included); order unspecified */
